@@ -14,7 +14,7 @@ def check(run):
     seqs = []
     FB = [0, 1, 2, P - 1, P - 2, (P - 1) // 2, (P + 1) // 2]
     # ---- the interpolation itself on boundary and random shares
-    for _ in range(80 if quick else 3000):
+    for _ in range(400 if quick else 5000):
         s, a = rng.choice(FB + [rand_fr(rng)] * 4), rng.choice(FB + [rand_fr(rng)] * 4)
         x1, x2 = rng.choice(FB + [rand_fr(rng)] * 4), rng.choice(FB + [rand_fr(rng)] * 4)
         y1, y2 = (s + x1 * a) % P, (s + x2 * a) % P
@@ -25,7 +25,7 @@ def check(run):
     # ---- on message encodings: values from proof_values_from_witness (the real Poseidon), thousands of pairs
     wl = []
     cases = []
-    for _ in range(30 if quick else 600):
+    for _ in range(120 if quick else 1200):
         s = rng.choice(FB + [rand_fr(rng)] * 4)
         e = rng.choice(FB + [rand_fr(rng)] * 4)
         m = rng.choice([0, 1, 5, 2**16 - 1])
